@@ -1432,3 +1432,114 @@ func (c *Ctx) decodedBoundRule(rule string) int {
 	}
 	return n
 }
+
+// tableIndexRule (T20): an element of a package-level array (a name table, a dispatch table) taken at a
+// non-constant index needs, on the way to the access, a bound on the index that fits the table: from the
+// dominating comparisons of the index with constants the largest value still possible must be below the array's
+// length. `if kind == 0 || kind > len(table) { return … }; table[kind]` lets kind == len(table) through.
+// Returns the number of such accesses.
+func (c *Ctx) tableIndexRule(rule string, fns []*ssa.Function) int {
+	n := 0
+	for _, f := range fns {
+		for _, b := range f.Blocks {
+			for _, in := range b.Instrs {
+				ia, ok := in.(*ssa.IndexAddr)
+				if !ok {
+					continue
+				}
+				g, ok := ia.X.(*ssa.Global)
+				if !ok {
+					continue
+				}
+				pt, ok := g.Type().Underlying().(*types.Pointer)
+				if !ok {
+					continue
+				}
+				at, ok := pt.Elem().Underlying().(*types.Array)
+				if !ok {
+					continue
+				}
+				if _, isK := ia.Index.(*ssa.Const); isK {
+					continue
+				}
+				n++
+				idx := ia.Index
+				same := func(v ssa.Value) bool {
+					for i := 0; i < 4; i++ {
+						if v == idx {
+							return true
+						}
+						if cv, ok := v.(*ssa.Convert); ok {
+							v = cv.X
+							continue
+						}
+						break
+					}
+					// the index itself may be a conversion of the compared value
+					w := idx
+					for i := 0; i < 4; i++ {
+						if w == v {
+							return true
+						}
+						if cv, ok := w.(*ssa.Convert); ok {
+							w = cv.X
+							continue
+						}
+						break
+					}
+					return false
+				}
+				ub := int64(-1) // unknown
+				for _, cf := range dominatingConds(b) {
+					bo, ok := cf.Cond.(*ssa.BinOp)
+					if !ok {
+						continue
+					}
+					x, y, op := bo.X, bo.Y, bo.Op
+					k, isK := constInt(y)
+					if !isK || !same(x) {
+						if k2, isK2 := constInt(x); isK2 && same(y) {
+							// k op idx  ⇒  idx op' k
+							k = k2
+							switch op {
+							case token.LSS:
+								op = token.GTR
+							case token.LEQ:
+								op = token.GEQ
+							case token.GTR:
+								op = token.LSS
+							case token.GEQ:
+								op = token.LEQ
+							}
+						} else {
+							continue
+						}
+					}
+					var bound int64 = -1
+					switch {
+					case op == token.LSS && cf.Val:
+						bound = k - 1
+					case op == token.LEQ && cf.Val:
+						bound = k
+					case op == token.GEQ && !cf.Val:
+						bound = k - 1
+					case op == token.GTR && !cf.Val:
+						bound = k
+					case op == token.EQL && cf.Val:
+						bound = k
+					}
+					if bound >= 0 && (ub < 0 || bound < ub) {
+						ub = bound
+					}
+				}
+				okB := ub >= 0 && ub < at.Len()
+				msg := fmt.Sprintf("no dominating comparison bounds the index of %s (length %d) from above", g.Name(), at.Len())
+				if ub >= 0 {
+					msg = fmt.Sprintf("the comparisons in front of the access let the index of %s reach %d, but the table has %d elements (indices up to %d): the largest value passes the guard and indexes out of range (panic)", g.Name(), ub, at.Len(), at.Len()-1)
+				}
+				c.S.Check(okB, rule, load.FuncName(f)+":index into "+g.Name(), c.pos(ia.Pos()), fmt.Sprintf("index bounded by %d < %d", ub, at.Len()), msg)
+			}
+		}
+	}
+	return n
+}
